@@ -12,7 +12,16 @@ Definition allowed_writers : list (string * list string) :=
   [("resCache", ["assign:initResolutionCache"; "method:ShallowClone:cacheOrDefault"]);
    ("onceCache", ["method:Do:cacheOrDefault"]);
    ("assets", ["method:ReadFile:jsonschemaDraft04JSONBytes"; "method:ReadFile:v2SchemaJSONBytes"]);
-   ("specLogger", ["assign:debugOptions"; "method:Printf:absPath"; "method:Printf:debugLog"; "method:Printf:normalizeBase"; "method:Printf:normalizeURI"])].
+   ("specLogger", ["assign:debugOptions"; "method:Printf:absPath"; "method:Printf:debugLog"; "method:Printf:normalizeBase"; "method:Printf:normalizeURI"]);
+   (* values of package-level variables handed out by a function ("returned:function"): an error value, and the two
+      constant encodings `true` / `false` of SchemaOrBool (swag.ConcatJSON copies them); any other package-level variable whose
+      value is returned to callers - a pointer, map or slice they could write through - breaks the obligation *)
+   ("ErrResolveRefNeedsAPointer", ["returned:schemaLoader.resolveRef"]);
+   ("jsFalse", ["returned:SchemaOrBool.MarshalJSON"]);
+   ("jsTrue", ["returned:SchemaOrBool.MarshalJSON"]);
+   (* the package-level loader function read into a local ("aliased:function"); a package-level slice, map or pointer given
+      another name, or passed to a function of the package ("passed:callee:function"), breaks the obligation *)
+   ("PathLoader", ["aliased:newResolverContext"])].
 
 Definition globals_ok (g : list (string * list string)) : bool :=
   forallb (fun e => match assoc (fst e) allowed_writers with
